@@ -535,7 +535,10 @@ func (fr *frame) evalSliceExpr(st *State, x *ast.SliceExpr) *Value {
 				hi = StrLen(base.S)
 			}
 			fr.fc.oblige(st, fr, "safe", fmt.Sprintf("safe.slice#%d", fr.ords[x]), And(Le(mkInt(0), lo), Le(lo, hi), Le(hi, StrLen(base.S))))
-			return scalar(StrSubstr(base.S, lo, Sub(hi, lo)), bt)
+			sub := StrSubstr(base.S, lo, Sub(hi, lo))
+			// (the bounds were just established by the safe.slice obligation)
+			st.assume(Eq(StrLen(sub), Sub(hi, lo)))
+			return scalar(sub, bt)
 		}
 	case *types.Slice:
 		if x.High != nil {
